@@ -12,4 +12,6 @@ void vp_init_globals(void); void vp_rt_init(void); void ENTRY(void);
 int main(int argc, char** argv) {
   FILE* f = fopen(argv[1], "r"); unsigned long long v; while (f && fscanf(f, "%llu", &v) == 1) in[nin++] = v;
   const char* ps = getenv("VP_PARAMS"); if (ps) { char* c = (char*)ps; while (*c) { par[npar++] = (uint32_t)strtol(c, &c, 10); if (*c == ',') ++c; } }
-  vp_rt_init(); vp_init_globals(); ENTRY(); printf("VP_DONE\n"); return 0; }
+  vp_rt_init(); vp_init_globals(); ENTRY();
+  { extern int vp_exc_pending; if (vp_exc_pending) { printf("VP_UNCAUGHT_EXCEPTION\n"); return 6; } }
+  printf("VP_DONE\n"); return 0; }
